@@ -232,6 +232,12 @@ func newRaw(name string) (func() connect.Decompressor, func() connect.Compressor
 	case "rle":
 		return func() connect.Decompressor { return &rleDecomp{} },
 			func() connect.Compressor { return &rleComp{w: io.Discard} }
+	case "gzipmm":
+		// registered under the wire name "gzip" (see WireName): a peer whose
+		// gzip writer emits several members per message, which RFC 1952 allows
+		// and every gzip reader is expected to concatenate
+		return func() connect.Decompressor { return &gzip.Reader{} },
+			func() connect.Compressor { return &gzipMM{w: io.Discard} }
 	}
 	panic("unknown compression " + name)
 }
@@ -376,3 +382,34 @@ func (d *rleDecomp) Read(p []byte) (int, error) {
 }
 
 func (d *rleDecomp) Close() error { return nil }
+
+// WireName is the name an algorithm of this package is registered under.
+func WireName(name string) string {
+	if name == "gzipmm" {
+		return "gzip"
+	}
+	return name
+}
+
+// gzipMM writes each message as two gzip members.
+type gzipMM struct {
+	w   io.Writer
+	buf []byte
+}
+
+func (c *gzipMM) Reset(w io.Writer)           { c.w, c.buf = w, c.buf[:0] }
+func (c *gzipMM) Write(p []byte) (int, error) { c.buf = append(c.buf, p...); return len(p), nil }
+func (c *gzipMM) Close() error {
+	half := len(c.buf) / 2
+	for _, part := range [][]byte{c.buf[:half], c.buf[half:]} {
+		zw := gzip.NewWriter(c.w)
+		if _, err := zw.Write(part); err != nil {
+			return err
+		}
+		if err := zw.Close(); err != nil {
+			return err
+		}
+	}
+	c.buf = c.buf[:0]
+	return nil
+}
